@@ -20,5 +20,13 @@ META["C14"] = {
     "note": "Trusted: Lean kernel, T2 extractor (regex over go/printer output of the resolver bodies; any unrecognised arm is an error), harness. Interface satisfaction in Go is assumed to be by own type only and is validated exhaustively.",
 }
 
+META["C12"] = {
+    "category": "proof",
+    "design_ref": "DESIGN.md section 5 / C12",
+    "technique": "Lean 4: per-type property sets and per-property kind sets extracted from generated Go (T2) proved equal to the ontology's domain/inheritance/withheld and range/descendant reading (T1) via a kernel-evaluated table condition + generic lifting theorems; exhaustive (type,property) and (property,kind) behavioural probes; Lean re-implementation of the literal codecs compared with typed accessors",
+    "text": "Every generated type has exactly the properties the ontology gives it (domain through ancestors, minus withheld, plus id/type), every property exactly the declared kinds (ranged types with all descendants, declared literals, always an IRI), functional/natural-language flags as declared, and the skip list that separates known from unknown members is exactly the property names: proved for any tables passing a decidable condition which the kernel evaluates on the tables re-extracted from /repo each run. The literal accessors' values are compared with an independent denotation (365-day years, 30-day months; civil-date algorithm) on sampled lexical forms - that part is correspondence, not proof.",
+    "note": "Trusted: Lean kernel, T1/T2, harness reflection over the public accessors. Literal denotation: Lean re-implementation validated against Go's time/regexp behaviour by sampling only.",
+}
+
 _ALL = ["C%02d" % i for i in range(1, 21)]
 NOT_APPLICABLE = [{"property_id": p, "reason": PENDING} for p in _ALL if p not in META]
